@@ -174,3 +174,21 @@ Fixpoint frags_contiguous (t : Z) (frags : list frag) : Prop :=
   | [] => True
   | f :: r => f_tfdt f = t /\ frags_contiguous (t + sum_durs (f_samples f)) r
   end.
+
+(** ** The request-level guard of chunked mode ([livesimHandlerFunc], repair 6ca1ef6):
+    [!cfg.AvailabilityTimeCompleteFlag && !(ato >= 0 && ato*1000 < float64(a.SegmentDurMS))] is
+    answered 400 before anything else is looked at.  [atoMicro] is the offset in exact
+    microseconds ([None]: +Inf); [guarded] says whether the tree the harness was built from
+    has the guard (read from handler_livesim.go by the harness on every run). *)
+Definition chunkGuardOK (atoMicro : option Z) (segDurMS : Z) : bool :=
+  match atoMicro with
+  | Some a => (0 <=? a) && (a <? segDurMS * 1000)
+  | None => false
+  end.
+
+Definition chunkedRefused (guarded : bool) (atoMicro : option Z) (segDurMS : Z) : bool :=
+  guarded && negb (chunkGuardOK atoMicro segDurMS).
+
+(** [int(math.Round(ato*1000))] for an offset given in microseconds (half away from zero) *)
+Definition roundMilli (atoMicro : Z) : Z :=
+  if 0 <=? atoMicro then (atoMicro + 500) / 1000 else - ((- atoMicro + 500) / 1000).
